@@ -5,18 +5,24 @@ Runtime monitors, all on the real code:
 * **K (key groups)**: every generated statement gets ``_generate_cache_key()``; all
   statements of the run are grouped by key equality.  Within a group the *uncached*
   compilation (``stmt.compile(dialect=d)``) must give the same SQL string, the same bind
-  names / bind type classes / expanding+literal_execute flags and the same result-column
-  names on sqlite, postgresql, mysql, mssql, oracle and the default dialect.  The groups
+  names / bind type classes / expanding+literal_execute flags, the same result-column
+  names and the same bind / result *processing* (each processor applied to three fixed
+  probe values) on sqlite, postgresql, mysql, mssql, oracle and the default dialect.  The groups
   are fed by the perturbation operator of ``vf.gen.stmt_gb`` (siblings differing in
   exactly one attribute) and by "literal-only" siblings (same spec, different values).
   Bind parameters come in value form and in callable form (``bindparam(callable_=...)``,
   named and anonymous, plus ORM ``relationship == instance`` criteria whose binds read the
   instance lazily); the two forms of one shape share a key and meet in either order.
+  Types (in cast / type_coerce / bindparam / text().columns()) vary in constructor arguments
+  (falsy ones included), carry ``with_variant()`` types for one or two dialects, and nest:
+  ARRAY(item), a TypeDecorator taking a TypeEngine, PickleType(impl=...), holding stateful
+  user types with ``cache_ok`` False (must make the statement uncacheable) or True.
 * **P (cached parameters)**: per dialect a private compiled cache is driven through the
   library's own ``ClauseElement._compile_w_cache``; for every statement the parameters
   the cached ``Compiled`` produces through ``construct_params(extracted_parameters=...,
   _collected_params=...)`` (exactly the call ``DefaultExecutionContext._init_compiled``
-  makes) must equal the statement's own uncached parameters, and the cached SQL string
+  makes), passed through the cached Compiled's bind processors, must equal the statement's
+  own uncached, processed parameters, and the cached SQL string
   must equal the statement's own uncached SQL string -- also on cache *hits* populated by
   a sibling with other literal values.
 * **X (execution)**: the same statements are executed in three independent random
@@ -99,15 +105,73 @@ def _norm_params(params, m):
     return {m.get(k, k): v for k, v in params.items()}
 
 
+_PROBES = (7, "7", 2.5)
+
+
+def _probe(proc):
+    """what a bind / result processor does to a few fixed values (None = no processing)"""
+    if proc is None:
+        return None
+    out = []
+    for v in _PROBES:
+        try:
+            out.append(repr(proc(v)))
+        except Exception as e:  # the probe does not fit the type: the *way* it fails is still a property of the processor
+            out.append(type(e).__name__)
+    return tuple(out)
+
+
+def _bind_processors(c):
+    try:
+        return c._bind_processors
+    except Exception:  # e.g. a processor factory that needs a real DBAPI module
+        return None
+
+
+def _processed(c, raw):
+    """raw construct_params() output after the Compiled's bind processors (what the cursor would receive)"""
+    procs = _bind_processors(c)
+    if not procs:
+        return dict(raw)
+    out = {}
+    for k, v in raw.items():
+        proc = procs.get(k)
+        if proc is None:
+            out[k] = v
+            continue
+        try:
+            if isinstance(v, (list, tuple)):
+                out[k] = [proc(x) if not isinstance(x, (list, tuple)) else x for x in v]
+            else:
+                out[k] = proc(v)
+        except Exception as e:
+            out[k] = ("processor-error", type(e).__name__)
+    return out
+
+
+def _resultsig(c):
+    out = []
+    d = c.dialect
+    for rc in (c._result_columns or ()):
+        try:
+            proc = rc.type._cached_result_processor(d, None)
+        except Exception as e:
+            out.append(("no-processor", type(e).__name__))
+            continue
+        out.append(_probe(proc))
+    return tuple(out)
+
+
 def _bindsig(c):
     out = []
     m = _namemap(c)
+    procs = _bind_processors(c) or {}
     for bp, name in c.bind_names.items():
         name = m[name]
         out.append((name, type(bp.type).__name__, bool(bp.expanding), bool(bp.literal_execute),
-                    bp in c.literal_execute_params, bp in c.post_compile_params))
+                    bp in c.literal_execute_params, bp in c.post_compile_params, _probe(procs.get(c.bind_names[bp]))))
     rc = tuple(r.keyname for r in (c._result_columns or ()))
-    return (tuple(out), tuple(m.get(n, n) for n in (c.positiontup or ())), rc)
+    return (tuple(out), tuple(m.get(n, n) for n in (c.positiontup or ())), rc, _resultsig(c))
 
 
 def _spec_diff(a, b, path=()):
@@ -203,7 +267,7 @@ def part_keys(ctx, env, G):
                     c = stmt.compile(dialect=d)
                     m = _namemap(c)
                     sig[dn] = (_norm_sql(str(c), m), _bindsig(c))
-                    refparams[dn] = _norm_params(c.construct_params(escape_names=False), m)
+                    refparams[dn] = _norm_params(_processed(c, c.construct_params(escape_names=False)), m)
                 except (sa_exc.SQLAlchemyError, NotImplementedError) as e:
                     sig[dn] = ("EXC", type(e).__name__)
             ctx.count("uncached_compiles", len(ds))
@@ -250,8 +314,8 @@ def part_keys(ctx, env, G):
                     compiled, extracted, param_dict, hit = stmt._compile_w_cache(
                         d, compiled_cache=caches[dn], column_keys=[], for_executemany=False, schema_translate_map=None)
                     mc = _namemap(compiled)
-                    got = _norm_params(compiled.construct_params(extracted_parameters=extracted, escape_names=False,
-                                                                 _collected_params=param_dict), mc)
+                    got = _norm_params(_processed(compiled, compiled.construct_params(
+                        extracted_parameters=extracted, escape_names=False, _collected_params=param_dict)), mc)
                 except (sa_exc.SQLAlchemyError, NotImplementedError) as e:
                     ctx.violation("cached-compile-raises-uncached-does-not:" + type(e).__name__,
                                   f"{dn}: uncached compile succeeded, cached path raised {e!r}", {"spec": sp, "dialect": dn})
@@ -262,10 +326,10 @@ def part_keys(ctx, env, G):
                     # execution-time parameters for the explicitly named binds, other literals still
                     # have to come from *this* statement
                     over = {sorted(b.named)[0]: 4242}
-                    got2 = _norm_params(compiled.construct_params(dict(over), extracted_parameters=extracted, escape_names=False,
-                                                                  _collected_params=param_dict), mc)
+                    got2 = _norm_params(_processed(compiled, compiled.construct_params(
+                        dict(over), extracted_parameters=extracted, escape_names=False, _collected_params=param_dict)), mc)
                     c2 = stmt.compile(dialect=d)
-                    ref2 = _norm_params(c2.construct_params(dict(over), escape_names=False), _namemap(c2))
+                    ref2 = _norm_params(_processed(c2, c2.construct_params(dict(over), escape_names=False)), _namemap(c2))
                     ctx.count("cached_param_checks_with_exec_params")
                     if got2 != ref2 and got == refparams[dn]:
                         ctx.violation(
@@ -317,6 +381,17 @@ def _norm_value(v, depth=0):
 
 
 _RELS = {"A": ("bs",), "B": ("a", "cs"), "C": ("b",)}
+
+
+def _params_repr(p):
+    """repr of DBAPI parameters without object addresses (memoryview of a pickled / binary value)"""
+    if isinstance(p, memoryview):
+        return "memoryview(%r)" % (bytes(p),)
+    if isinstance(p, (list, tuple)):
+        return "(" + ", ".join(_params_repr(x) for x in p) + ")"
+    if isinstance(p, dict):
+        return "{" + ", ".join("%r: %s" % (k, _params_repr(v)) for k, v in sorted(p.items())) + "}"
+    return repr(p)
 
 
 def _has_callable_bind(node):
@@ -384,7 +459,7 @@ def _execute(env, engine, spy, spec, stmt, params, is_orm_entity):
         # processor.  That is the workload's doing; it is an outcome like any other and must simply be the
         # same under every cache state.
         outcome = ("result-processing-error", type(e).__name__)
-    stream = [(e.sql, repr(e.params)) for e in spy.since(mark, kinds=("execute", "executemany"))]
+    stream = [(e.sql, _params_repr(e.params)) for e in spy.since(mark, kinds=("execute", "executemany"))]
     return outcome, stream
 
 
